@@ -167,6 +167,8 @@ def main():
     cfg = registry.PROPS[pid]
     t0 = time.time()
     os.makedirs(os.path.join(VERIF, "evidence"), exist_ok=True)
+    if args.replay:
+        args.replay = os.path.abspath(args.replay)
     os.makedirs(os.path.join(VERIF, "replays"), exist_ok=True)
 
     with ThreadPoolExecutor(max_workers=4) as ex:
